@@ -47,21 +47,24 @@ type sqUop struct {
 }
 
 type sqScenario struct {
-	Kind      string      `json:"kind"`
-	Data      []int       `json:"data,omitempty"`
-	Ops       [][]int     `json:"ops,omitempty"`
-	NilR      bool        `json:"nilr,omitempty"`
-	NilW      bool        `json:"nilw,omitempty"`
-	Init      [][]int     `json:"init,omitempty"`
-	Uops      []sqUop     `json:"uops,omitempty"`
-	NilStream bool        `json:"nilstream,omitempty"`
-	NilClose  bool        `json:"nilclose,omitempty"`
-	CloseErr  bool        `json:"closeerr,omitempty"`
-	Script    [][]int     `json:"script,omitempty"`
-	Prog      [][][]int   `json:"prog,omitempty"`
-	NilCb     bool        `json:"nilcb,omitempty"`
-	Feed      [][]sqItem  `json:"feed,omitempty"`
-	WScript   [][][]int   `json:"wscript,omitempty"`
+	Kind      string    `json:"kind"`
+	Data      []int     `json:"data,omitempty"`
+	Ops       [][]int   `json:"ops,omitempty"`
+	NilR      bool      `json:"nilr,omitempty"`
+	NilW      bool      `json:"nilw,omitempty"`
+	Init      [][]int   `json:"init,omitempty"`
+	Uops      []sqUop   `json:"uops,omitempty"`
+	NilStream bool      `json:"nilstream,omitempty"`
+	NilClose  bool      `json:"nilclose,omitempty"`
+	CloseErr  bool      `json:"closeerr,omitempty"`
+	Script    [][]int   `json:"script,omitempty"`
+	Prog      [][][]int `json:"prog,omitempty"`
+	NilCb     bool      `json:"nilcb,omitempty"`
+	// proxy: what Close of stream 1 / 2 returns: 0 nil, 1 an error from the first call only, 2 an error
+	// from every call (the stream counts as closed in every case; ProxyStreams ignores the result)
+	PxCloseErr []int      `json:"pxcloseerr,omitempty"`
+	Feed       [][]sqItem `json:"feed,omitempty"`
+	WScript    [][][]int  `json:"wscript,omitempty"`
 }
 
 type seqioDriver struct {
@@ -616,6 +619,8 @@ type sqProxy struct {
 	closed  [3]bool
 	wcnt    [3]int
 	wscript [3][][]int
+	cerr    [3]int
+	ncl     [3]int
 	fed     [3]int
 	parks   []*sqPark
 	pumpOf  map[string]int
@@ -728,8 +733,13 @@ func (st *sqStream) Close() error {
 	}
 	d.mu.Lock()
 	px.closed[s] = true
+	px.ncl[s]++
+	fail := px.cerr[s] == 2 || (px.cerr[s] == 1 && px.ncl[s] == 1)
 	d.mu.Unlock()
-	d.x.Log(trace.E{"ev": "sclose", "s": s})
+	d.x.Log(trace.E{"ev": "sclose", "s": s, "err": fail})
+	if fail {
+		return errSqClosed
+	}
 	return nil
 }
 
@@ -751,6 +761,9 @@ func (d *seqioDriver) runProxy(sc *sqScenario) {
 		}
 		if len(sc.WScript) >= s {
 			px.wscript[s] = sc.WScript[s-1]
+		}
+		if len(sc.PxCloseErr) >= s {
+			px.cerr[s] = sc.PxCloseErr[s-1]
 		}
 	}
 	x.Log(trace.E{"ev": "new", "h": "proxy", "nilcb": sc.NilCb})
@@ -976,6 +989,9 @@ func genSeqio(r *rand.Rand) sqScenario {
 		return sc
 	default:
 		sc := sqScenario{Kind: "proxy", NilCb: r.Intn(8) == 0}
+		if r.Intn(3) == 0 {
+			sc.PxCloseErr = []int{r.Intn(3), r.Intn(3)}
+		}
 		for s := 0; s < 2; s++ {
 			items := []sqItem{}
 			for i, n := 0, r.Intn(4); i < n; i++ {
